@@ -16,6 +16,9 @@
 #include "quill/core/LoggerBase.h"
 #include "quill/core/MacroMetadata.h"
 #include "quill/core/Rdtsc.h"
+#if defined(QUILL_VERIF)
+  #include "quill/core/VerifHooks.h"
+#endif
 
 #include <atomic>
 #include <cassert>
@@ -125,6 +128,10 @@ public:
       current_timestamp = 0;
     }
 
+#if defined(QUILL_VERIF)
+    verif::hit(verif::FE_TS_TAKEN, this, current_timestamp);
+#endif
+
     if (QUILL_UNLIKELY(thread_context == nullptr))
     {
       // This caches the ThreadContext pointer to avoid repeatedly calling get_local_thread_context()
@@ -150,6 +157,9 @@ public:
       if (QUILL_UNLIKELY(write_buffer == nullptr))
       {
         // not enough space to push to queue message is dropped
+#if defined(QUILL_VERIF)
+        verif::hit(verif::FE_DROPPED, thread_context, total_size);
+#endif
         if (macro_metadata->event() == MacroMetadata::Event::Log)
         {
           thread_context->increment_failure_counter();
@@ -169,6 +179,9 @@ public:
 
         do
         {
+#if defined(QUILL_VERIF)
+          verif::hit(verif::FE_BLOCKED_RETRY, thread_context, total_size);
+#endif
           if constexpr (frontend_options_t::blocking_queue_retry_interval_ns > 0)
           {
             std::this_thread::sleep_for(std::chrono::nanoseconds{frontend_options_t::blocking_queue_retry_interval_ns});
@@ -208,6 +221,9 @@ public:
            "The committed write bytes must be equal to the total_size requested bytes");
 #endif
 
+#if defined(QUILL_VERIF)
+    verif::hit(verif::FE_BEFORE_COMMIT, thread_context, total_size);
+#endif
     thread_context->get_spsc_queue<frontend_options_t::queue_type>().finish_and_commit_write(total_size);
 
     if constexpr (immediate_flush)
@@ -300,6 +316,9 @@ public:
     // The caller thread keeps checking the flag until the backend thread flushes
     while (!backend_thread_flushed.load())
     {
+#if defined(QUILL_VERIF)
+      verif::hit(verif::FE_FLUSH_WAIT, this, 0);
+#endif
       if (sleep_duration_ns > 0)
       {
         std::this_thread::sleep_for(std::chrono::nanoseconds{sleep_duration_ns});
